@@ -2,11 +2,23 @@
 C04 — Models: batch equals single evaluation; derivatives are the true derivatives.
 
 Models: `Model/Models.lean` (dense layers with element-wise activations,
-normalizer/softmax rows, two-layer concatenation), tied to `LinearModel`,
-`NeuronLayer` and `ConcatenatedModel` by `checks/c04.py`.
+normalizer/softmax rows, concatenations of any length) and `Model/Models2.lean`
+(`Normalizer`, `Classifier`, max pooling, spline resize as a linear gather, `Conv2DModel`, `RBFLayer`,
+`KernelExpansion`, `Ensemble`, `CMACMap`), tied to the C++ classes by `checks/c04.py`.
+Sections 1-3: single dense layers and the abstract chain rule; section 4: the executable
+backward pass of `ConcatenatedModel` (proved by induction over the chain in
+`Lemmas/ChainDeriv.lean`); section 5: the further model types (proofs in
+`Lemmas/ModelsIndex.lean`, `Lemmas/ModelsPool.lean`, `Lemmas/ModelsRBF.lean`,
+`Lemmas/ModelsConv.lean`).
 -/
 import SharkVerif.Lemmas.Models
 import SharkVerif.Lemmas.ModelsDeriv
+import SharkVerif.Lemmas.ChainDeriv
+import SharkVerif.Lemmas.ModelsIndex
+import SharkVerif.Lemmas.ModelsPool
+import SharkVerif.Lemmas.ModelsRBF
+import SharkVerif.Lemmas.ModelsConv
+import SharkVerif.Lemmas.ModelsCMAC
 namespace SharkVerif.C04
 open SharkVerif.Models Scalar
 
@@ -474,11 +486,387 @@ theorem concat_chain_rule {n h k : ℕ}
 
 end Derivatives
 
+/-! ## 4. `ConcatenatedModel` of any length (`Chain`): rows, parameters, backward pass -/
+section ChainSection
+variable {α : Type} [Scalar α]
+
+/-- row `i` of a layer's batch output is a function of row `i` of its input -/
+theorem layer_row_congr (tanh exp : α → α) (l : Layer α) (X Y : Nat → Nat → α) (i : Nat) (h : X i = Y i) :
+    l.evalB tanh exp X i = l.evalB tanh exp Y i := by
+  cases l with
+  | dense m => funext k; simp only [Layer.evalB, Dense.evalB, Dense.preB, h]
+  | neuron a n => funext k; simp only [Layer.evalB, h]
+  | rowact kind n => cases kind <;> (funext k; simp only [Layer.evalB, h])
+
+/-- rows of a batch are independent for a chain of any length and any layer kinds (including the
+row-wise softmax / normalizer layers): row `i` of the output depends on row `i` of the input only -/
+theorem chain_row_independent (tanh exp : α → α) (c : Chain α) (X Y : Nat → Nat → α) (i : Nat) (h : X i = Y i) :
+    c.evalB tanh exp X i = c.evalB tanh exp Y i := by
+  induction c generalizing X Y with
+  | nil => simpa [Chain.evalB_nil] using h
+  | cons p rest ih =>
+    obtain ⟨l, o⟩ := p
+    rw [Chain.evalB_cons, Chain.evalB_cons]
+    exact ih _ _ (layer_row_congr tanh exp l X Y i h)
+
+/-- **batch = single for chains**: the `i`-th row of a batch evaluation equals the evaluation of the
+one-row batch made of input `i` (which is how `AbstractModel::eval(InputType const&, …)` evaluates a
+single input), whatever the other rows are and however many there are -/
+theorem chain_batch_eq_single (tanh exp : α → α) (c : Chain α) (X : Nat → Nat → α) (i k : Nat) :
+    c.evalB tanh exp X i k = c.evalB tanh exp (fun _ => X i) 0 k := by
+  have := chain_row_independent tanh exp c X (fun _ => X i)
+  have h1 : c.evalB tanh exp X i = c.evalB tanh exp (fun _ => X i) i := this i rfl
+  have h2 : c.evalB tanh exp (fun _ => X i) i = c.evalB tanh exp (fun _ => X i) 0 := by
+    -- all rows of a constant batch are equal
+    have hc : ∀ (c : Chain α) (Z : Nat → Nat → α), (∀ a b, Z a = Z b) → ∀ a b, c.evalB tanh exp Z a = c.evalB tanh exp Z b := by
+      intro c
+      induction c with
+      | nil => intro Z hZ a b; simpa [Chain.evalB_nil] using hZ a b
+      | cons p rest ih =>
+        obtain ⟨l, o⟩ := p
+        intro Z hZ a b
+        rw [Chain.evalB_cons]
+        apply ih
+        intro a b
+        cases l with
+        | dense m => funext k; simp only [Layer.evalB, Dense.evalB, Dense.preB, hZ a b]
+        | neuron act n => funext k; simp only [Layer.evalB, hZ a b]
+        | rowact kind n => cases kind <;> (funext k; simp only [Layer.evalB, hZ a b])
+    exact hc c _ (fun _ _ => rfl) i 0
+  rw [h1, h2]
+end ChainSection
+
+theorem layer_params_length (l : Layer Rat) : l.params.length = l.numberOfParameters := by
+  cases l with
+  | dense m => exact params_length m
+  | neuron a n => rfl
+  | rowact k n => rfl
+
+/-- `parameterVector()` of a chain has the reported length -/
+theorem chain_params_length (c : Chain Rat) : c.params.length = c.numberOfParameters := by
+  induction c with
+  | nil => rfl
+  | cons p rest ih =>
+    obtain ⟨l, o⟩ := p
+    rw [Chain.params_cons, List.length_append, ih]
+    cases o <;> simp [Chain.numberOfParameters, layer_params_length]
+
+/-- setting a vector of the reported length and reading it back is the identity, for chains of any
+length with optimised and frozen layers -/
+theorem chain_params_setParams (c : Chain Rat) (p : List Rat) (hp : p.length = c.numberOfParameters) :
+    (c.setParams p).params = p := by
+  induction c generalizing p with
+  | nil =>
+    simp only [Chain.numberOfParameters] at hp
+    simp [Chain.setParams, Chain.params_nil, List.length_eq_zero_iff.1 hp]
+  | cons q rest ih =>
+    obtain ⟨l, o⟩ := q
+    cases o with
+    | false =>
+      simp only [Chain.numberOfParameters, Bool.false_eq_true, ↓reduceIte, Nat.zero_add] at hp
+      simp only [Chain.setParams, Chain.params_cons, Bool.false_eq_true, ↓reduceIte, List.nil_append]
+      exact ih p hp
+    | true =>
+      simp only [Chain.numberOfParameters, ↓reduceIte] at hp
+      simp only [Chain.setParams, Chain.params_cons, ↓reduceIte]
+      have hrest : (p.drop l.numberOfParameters).length = Chain.numberOfParameters rest := by
+        rw [List.length_drop]; omega
+      rw [ih _ hrest]
+      have hl : (l.setParams (p.take l.numberOfParameters)).params = p.take l.numberOfParameters := by
+        cases l with
+        | dense m =>
+          simp only [Layer.setParams, Layer.params, Layer.numberOfParameters]
+          apply params_setParams
+          rw [List.length_take]
+          simp only [Layer.numberOfParameters] at hp
+          omega
+        | neuron a n => simp [Layer.setParams, Layer.params, Layer.numberOfParameters]
+        | rowact k n => simp [Layer.setParams, Layer.params, Layer.numberOfParameters]
+      rw [hl, List.take_append_drop]
+
+section ChainDerivatives
+open Finset
+
+/-- **the backward pass of `ConcatenatedModel` computes the weighted input derivative** — for chains of
+any length made of dense, element-wise neuron, softmax and normalizer layers, optimised or frozen:
+the matrix returned by the executable `Chain.backward` holds at `(i0,j0)` the partial derivative of
+the coefficient-weighted output sum w.r.t. the input entry `X[i0][j0]`.  Hypotheses: the shapes fit
+(`Chain.WF`), no rectifier / fast-sigmoid pre-activation sits on its kink and no normalizer row sums
+to zero (`Chain.NoKink`).  Proved by induction over the chain (`Chain.curve_hasDerivAt`). -/
+theorem chain_input_derivative_correct (c : Chain ℝ) (B nIn : ℕ) (X C : ℕ → ℕ → ℝ) (i0 j0 : ℕ)
+    (hi0 : i0 < B) (hj0 : j0 < nIn) (hwf : Chain.WF c nIn) (hnk : Chain.NoKink B c X) :
+    HasDerivAt (fun t => c.objective B nIn (fun i j => if i = i0 ∧ j = j0 then t else X i j) C)
+      ((c.backward Real.tanh Real.exp B X C).2 i0 j0) (X i0 j0) :=
+  Chain.input_derivative_correct c B nIn X C i0 j0 hi0 hj0 hwf hnk
+
+/-- **… and the weighted parameter derivative, weight part**: for an optimised dense layer `m` anywhere
+in the chain (`pre ++ m :: post`), the gradient vector returned by `Chain.backward` holds, at the
+position at which `parameterVector()` holds `W[k0][j0]` of that layer, the partial derivative of the
+weighted output sum w.r.t. that weight -/
+theorem chain_weight_derivative_correct (pre post : Chain ℝ) (m : Dense ℝ) (B nIn : ℕ)
+    (X C : ℕ → ℕ → ℝ) (k0 j0 : ℕ) (hk0 : k0 < m.nOut) (hj0 : j0 < m.nIn)
+    (hwf : Chain.WF (pre ++ (Layer.dense m, true) :: post) nIn)
+    (hnk : Chain.NoKink B (pre ++ (Layer.dense m, true) :: post) X) :
+    HasDerivAt (fun t => Chain.objective
+        (pre ++ (Layer.dense { m with W := fun k j => if k = k0 ∧ j = j0 then t else m.W k j }, true) :: post)
+        B nIn X C)
+      ((Chain.backward Real.tanh Real.exp B (pre ++ (Layer.dense m, true) :: post) X C).1.getD
+        ((Chain.params pre).length + (k0 * m.nIn + j0)) 0) (m.W k0 j0) ∧
+    (Chain.params (pre ++ (Layer.dense m, true) :: post)).getD
+      ((Chain.params pre).length + (k0 * m.nIn + j0)) 0 = m.W k0 j0 :=
+  ⟨Chain.weight_derivative_correct pre post m B nIn X C k0 j0 hk0 hj0 hwf hnk,
+   Chain.params_getD_weight pre post m k0 j0 hk0 hj0⟩
+
+/-- **… offset part** -/
+theorem chain_offset_derivative_correct (pre post : Chain ℝ) (m : Dense ℝ) (B nIn : ℕ)
+    (X C : ℕ → ℕ → ℝ) (k0 : ℕ) (hk0 : k0 < m.nOut) (hb : m.hasB = true)
+    (hwf : Chain.WF (pre ++ (Layer.dense m, true) :: post) nIn)
+    (hnk : Chain.NoKink B (pre ++ (Layer.dense m, true) :: post) X) :
+    HasDerivAt (fun t => Chain.objective
+        (pre ++ (Layer.dense { m with b := fun k => if k = k0 then t else m.b k }, true) :: post)
+        B nIn X C)
+      ((Chain.backward Real.tanh Real.exp B (pre ++ (Layer.dense m, true) :: post) X C).1.getD
+        ((Chain.params pre).length + (m.nOut * m.nIn + k0)) 0) (m.b k0) ∧
+    (Chain.params (pre ++ (Layer.dense m, true) :: post)).getD
+      ((Chain.params pre).length + (m.nOut * m.nIn + k0)) 0 = m.b k0 :=
+  ⟨Chain.offset_derivative_correct pre post m B nIn X C k0 hk0 hb hwf hnk,
+   Chain.params_getD_offset pre post m k0 hk0 hb⟩
+
+/-- the gradient vector has the length of the parameter vector -/
+theorem chain_gradient_length (c : Chain ℝ) (B : ℕ) (X C : ℕ → ℕ → ℝ) :
+    (c.backward Real.tanh Real.exp B X C).1.length = c.params.length :=
+  Chain.backward_fst_length Real.tanh Real.exp B c X C
+
+/-- the general form all three follow from: along any differentiable curve of batch inputs the
+derivative of the weighted output sum is the pairing of the backward pass with the curve's velocity -/
+theorem chain_curve_hasDerivAt (B : ℕ) (t0 : ℝ) (c : Chain ℝ) (nIn : ℕ) (X : ℝ → ℕ → ℕ → ℝ) (X' : ℕ → ℕ → ℝ)
+    (hwf : Chain.WF c nIn) (hX : ∀ i, i < B → ∀ j, j < nIn → HasDerivAt (fun t => X t i j) (X' i j) t0)
+    (hnk : Chain.NoKink B c (X t0)) (C : ℕ → ℕ → ℝ) :
+    HasDerivAt (fun t => ∑ i ∈ range B, ∑ k ∈ range (Chain.nOut c nIn), C i k * c.evalB Real.tanh Real.exp (X t) i k)
+      (∑ i ∈ range B, ∑ j ∈ range nIn, (c.backward Real.tanh Real.exp B (X t0) C).2 i j * X' i j) t0 :=
+  Chain.curve_hasDerivAt B t0 c nIn X X' hwf hX hnk C
+end ChainDerivatives
+
+/-! ## 5. further model types -/
+
+/-! ### `Classifier`: arg-max returns a maximal entry, the first such -/
+theorem classifier_argmax_in_range (n : Nat) (z : Nat → Rat) (hn : 0 < n) : argmax n z < n := argmax_lt n z hn
+theorem classifier_argmax_is_max (n : Nat) (z : Nat → Rat) (k : Nat) (hk : k < n) : z k ≤ z (argmax n z) :=
+  argmax_max n z k hk
+theorem classifier_argmax_is_first (n : Nat) (z : Nat → Rat) (k : Nat) (hk : k < argmax n z) :
+    z k < z (argmax n z) := argmax_first n z k hk
+/-- these three facts characterise it -/
+theorem classifier_argmax_unique (n : Nat) (z : Nat → Rat) (hn : 0 < n) (a : Nat) (ha : a < n)
+    (hmax : ∀ k, k < n → z k ≤ z a) (hfirst : ∀ k, k < a → z k < z a) : argmax n z = a :=
+  argmax_unique_char n z hn a ha hmax hfirst
+/-- the decision with a bias vector is the first maximum of `z + bias` -/
+theorem classifier_bias_spec (nOut : Nat) (bias z : Nat → Rat) (h1 : nOut ≠ 1) (hn : 0 < nOut) :
+    classifyRow nOut true bias z < nOut ∧
+    (∀ k, k < nOut → z k + bias k ≤ z (classifyRow nOut true bias z) + bias (classifyRow nOut true bias z)) ∧
+    (∀ k, k < classifyRow nOut true bias z →
+      z k + bias k < z (classifyRow nOut true bias z) + bias (classifyRow nOut true bias z)) :=
+  classifyRow_bias_spec nOut bias z h1 hn
+/-- a single output is thresholded at 0 -/
+theorem classifier_single_output (hb : Bool) (bias z : Nat → Rat) :
+    classifyRow 1 hb bias z = if 0 < z 0 + (if hb then bias 0 else 0) then 1 else 0 := classifyRow_one hb bias z
+/-- batch = single for `Classifier<LinearModel>`: the label of row `i` is the decision on the single
+evaluation of the decision function on input `i` -/
+theorem classifier_batch_eq_single (tanh : Rat → Rat) (m : Dense Rat) (hasBias : Bool) (bias : Nat → Rat)
+    (X : Nat → Nat → Rat) (i : Nat) :
+    classifyRow m.nOut hasBias bias (m.evalB tanh X i) = classifyRow m.nOut hasBias bias (m.eval tanh (X i)) := by
+  have : m.evalB tanh X i = m.eval tanh (X i) := funext fun k => dense_batch_eq_single tanh m X i k
+  rw [this]
+
+/-! ### `Normalizer` (diagonal affine map) -/
+theorem normalizer_batch_eq_single (m : Diag Rat) (X : Nat → Nat → Rat) (i k : Nat) :
+    m.evalB X i k = m.eval (X i) k := diag_batch_eq_single m X i k
+theorem normalizer_params_length (m : Diag Rat) : m.params.length = m.numberOfParameters := diag_params_length m
+theorem normalizer_params_setParams (m : Diag Rat) (p : List Rat) (hp : p.length = m.numberOfParameters) :
+    (m.setParams p).params = p := diag_params_setParams m p hp
+theorem normalizer_setParams_params (m : Diag Rat) (k : Nat) (hk : k < m.n) :
+    (m.setParams m.params).a k = m.a k ∧ (m.hasB = true → (m.setParams m.params).b k = m.b k) :=
+  ⟨diag_setParams_params_a m k hk, fun hb => diag_setParams_params_b m k hk hb⟩
+
+/-! ### `PoolingLayer` (max pooling) -/
+theorem pooling_batch_eq_single (s : Pool) (X : Nat → Nat → Rat) (i o : Nat) :
+    s.evalB X i o = s.evalRow (X i) o := pool_batch_eq_single s X i o
+/-- the output is the maximum of its patch, attained at the pixel the derivative code selects -/
+theorem pooling_output_is_patch_max (s : Pool) (x : Nat → Rat) (p c : Nat) (hc : c < s.d)
+    (hph : 0 < s.ph) (hpw : 0 < s.pw) :
+    (∀ q ∈ s.patch p, x (q * s.d + c) ≤ s.evalRow x (p * s.d + c)) ∧
+    s.argmaxPix x p c ∈ s.patch p ∧ x (s.argmaxPix x p c * s.d + c) = s.evalRow x (p * s.d + c) :=
+  ⟨fun q hq => pool_evalRow_ge s x p c q hc hq, pool_argmaxPix_spec s x p c hc hph hpw⟩
+/-- **weighted input derivative of max pooling** (no tie in the patch that contains the pixel) -/
+theorem pooling_input_derivative_correct (s : Pool) (x C : ℕ → ℝ) (q0 : ℕ)
+    (hd : 0 < s.d) (hph : 0 < s.ph) (hpw : 0 < s.pw)
+    (hnotie : ∀ p, p < s.outH * s.outW → q0 / s.d ∈ s.patch p →
+      ∀ q ∈ s.patch p, q ≠ q0 / s.d → x (q * s.d + q0 % s.d) ≠ x q0) :
+    HasDerivAt (fun t => ∑ p ∈ Finset.range (s.outH * s.outW), ∑ c ∈ Finset.range s.d,
+        C (p * s.d + c) * s.evalRow (fun q => if q = q0 then t else x q) (p * s.d + c))
+      (s.gradXRow x C q0) (x q0) :=
+  pool_input_derivative_correct s x C q0 hd hph hpw hnotie
+
+/-! ### `ResizeLayer` (any linear gather with fixed taps) -/
+theorem resize_batch_eq_single (g : Gather Rat) (X : Nat → Nat → Rat) (i o : Nat) :
+    g.evalB X i o = g.evalRow (X i) o := gather_batch_eq_single g X i o
+/-- **weighted input derivative of a linear gather**, for arbitrary taps (in particular the spline
+taps `Resize.gather floor toNat s` for any `floor`, `toNat`, any shapes) -/
+theorem resize_input_derivative_correct (g : Gather ℝ) (x C : ℕ → ℝ) (q0 : ℕ) (hd : 0 < g.d) :
+    HasDerivAt (fun t => ∑ p ∈ Finset.range g.nOutPix, ∑ c ∈ Finset.range g.d,
+        C (p * g.d + c) * g.evalRow (fun q => if q = q0 then t else x q) (p * g.d + c))
+      (g.gradXRow C q0) (x q0) :=
+  gather_input_derivative_correct g x C q0 hd
+
+/-! ### `RBFLayer` -/
+theorem rbf_batch_eq_single' (exp log : Rat → Rat) (logPi : Rat) (m : RBF Rat) (X : Nat → Nat → Rat) (i k : Nat) :
+    m.evalB exp log logPi X i k = m.eval exp log logPi (X i) k := rbf_batch_eq_single exp log logPi m X i k
+/-- **weighted parameter derivative, centers**: the entry of `gradParams` at the position of
+`centers[k0][j0]` in the parameter vector is the partial derivative of the weighted output sum -/
+theorem rbf_center_gradient_correct (m : RBF ℝ) (logPi : ℝ) (B : ℕ) (X C : ℕ → ℕ → ℝ) (k0 j0 : ℕ)
+    (hc : m.trainCenters = true) (hk0 : k0 < m.nOut) (hj0 : j0 < m.nIn) :
+    HasDerivAt (fun t => ∑ i ∈ Finset.range B, ∑ k ∈ Finset.range m.nOut, C i k *
+        ({ m with centers := fun k j => if k = k0 ∧ j = j0 then t else m.centers k j } : RBF ℝ).evalB
+          Real.exp Real.log logPi X i k)
+      ((m.gradParams B X (m.evalB Real.exp Real.log logPi X) C).getD (k0 * m.nIn + j0) 0)
+      ((m.params Real.log).getD (k0 * m.nIn + j0) 0) :=
+  rbf_gradParams_center_correct m logPi B X C k0 j0 hc hk0 hj0
+/-- **weighted parameter derivative, widths** (the parameter is `log γ`) -/
+theorem rbf_width_gradient_correct (m : RBF ℝ) (logPi : ℝ) (B : ℕ) (X C : ℕ → ℕ → ℝ) (k0 : ℕ)
+    (hw : m.trainWidth = true) (hk0 : k0 < m.nOut) (hg : 0 < m.gamma k0) :
+    HasDerivAt (fun t => ∑ i ∈ Finset.range B, ∑ k ∈ Finset.range m.nOut, C i k *
+        ({ m with gamma := fun k => if k = k0 then Real.exp t else m.gamma k } : RBF ℝ).evalB
+          Real.exp Real.log logPi X i k)
+      ((m.gradParams B X (m.evalB Real.exp Real.log logPi X) C).getD
+        ((if m.trainCenters then m.nOut * m.nIn else 0) + k0) 0)
+      ((m.params Real.log).getD ((if m.trainCenters then m.nOut * m.nIn else 0) + k0) 0) :=
+  rbf_gradParams_width_correct m logPi B X C k0 hw hk0 hg
+theorem rbf_params_roundtrip (m : RBF ℝ) (p : List ℝ) (hp : p.length = m.numberOfParameters) :
+    ((m.setParams Real.exp p).params Real.log) = p ∧ (m.params Real.log).length = m.numberOfParameters :=
+  ⟨rbf_params_setParams m p hp, rbf_params_length m⟩
+
+/-! ### `KernelExpansion` (any kernel function) -/
+theorem kernelExpansion_batch_eq_single (k : (Nat → Rat) → (Nat → Rat) → Rat) (m : KExp Rat)
+    (X : Nat → Nat → Rat) (i o : Nat) : m.evalB k X i o = m.eval k (X i) o := kexp_batch_eq_single k m X i o
+theorem kernelExpansion_params_roundtrip (m : KExp Rat) (p : List Rat) (hp : p.length = m.numberOfParameters) :
+    (m.setParams p).params = p ∧ m.params.length = m.numberOfParameters :=
+  ⟨kexp_params_setParams m p hp, kexp_params_length m⟩
+
+/-! ### `Ensemble` -/
+/-- the weighted mean of members that satisfy batch = single satisfies it -/
+theorem ensemble_batch_eq_single {M : Type} (ws : List Rat) (members : List M)
+    (fB : M → (Nat → Nat → Rat) → Nat → Nat → Rat) (fS : M → (Nat → Rat) → Nat → Rat)
+    (h : ∀ m ∈ members, ∀ X i k, fB m X i k = fS m (X i) k) (X : Nat → Nat → Rat) (i k : Nat) :
+    ensembleMean ws (members.map fun m => fB m X i) k = ensembleMean ws (members.map fun m => fS m (X i)) k :=
+  ensembleMean_batch_eq_single ws members fB fS h X i k
+/-- in particular for dense-layer members -/
+theorem ensemble_of_dense_batch_eq_single (tanh : Rat → Rat) (ws : List Rat) (members : List (Dense Rat))
+    (X : Nat → Nat → Rat) (i k : Nat) :
+    ensembleMean ws (members.map fun m => m.evalB tanh X i) k = ensembleMean ws (members.map fun m => m.eval tanh (X i)) k :=
+  ensembleMean_batch_eq_single ws members (fun m => m.evalB tanh) (fun m => m.eval tanh)
+    (fun m _ X i k => dense_batch_eq_single tanh m X i k) X i k
+/-- the votes of a voting ensemble form a distribution over the labels -/
+theorem ensemble_vote_sums_to_one (n : Nat) (ws : List Rat) (resp : List Nat) (hr : ∀ r ∈ resp, r < n)
+    (hlen : ws.length = resp.length) (hw : sumL ws ≠ 0) : sumR n (ensembleVote ws resp) = 1 :=
+  ensembleVote_sum n ws resp hr hlen hw
+
+/-- a voting ensemble of `Classifier<LinearModel>` members satisfies batch = single as well -/
+theorem ensemble_vote_batch_eq_single (tanh : Rat → Rat) (ws : List Rat) (members : List (Dense Rat))
+    (X : Nat → Nat → Rat) (i k : Nat) :
+    ensembleVote ws (members.map fun m => classifyRow m.nOut false (fun _ => 0) (m.evalB tanh X i)) k =
+    ensembleVote ws (members.map fun m => classifyRow m.nOut false (fun _ => 0) (m.eval tanh (X i))) k := by
+  have : (members.map fun m => classifyRow m.nOut false (fun _ => (0 : Rat)) (m.evalB tanh X i)) =
+      members.map fun m => classifyRow m.nOut false (fun _ => (0 : Rat)) (m.eval tanh (X i)) := by
+    apply List.map_congr_left
+    intro m _
+    exact classifier_batch_eq_single tanh m false _ X i
+  rw [this]
+
+/-! ### `Conv2DModel` -/
+theorem conv2d_batch_eq_single (tanh : Rat → Rat) (m : Conv Rat) (X : Nat → Nat → Rat) (i o : Nat) :
+    m.evalB tanh X i o = m.evalRow tanh (X i) o := conv_batch_eq_single tanh m X i o
+theorem conv2d_params_roundtrip (m : Conv Rat) (p : List Rat) (hp : p.length = m.numberOfParameters) :
+    (m.setParams p).params = p ∧ m.params.length = m.numberOfParameters :=
+  ⟨conv_params_setParams m p hp, conv_params_length m⟩
+/-- **weighted input derivative of the convolution** (both paddings, any activation away from its kink) -/
+theorem conv2d_input_derivative_correct (m : Conv ℝ) (B : ℕ) (X C : ℕ → ℕ → ℝ) (i0 j0 : ℕ) (hi0 : i0 < B)
+    (hnk : ConvNoKink m B X) :
+    HasDerivAt (fun t => ∑ i ∈ Finset.range B, ∑ o ∈ Finset.range m.nOut,
+        C i o * m.evalB Real.tanh (fun i j => if i = i0 ∧ j = j0 then t else X i j) i o)
+      (m.gradX (m.evalB Real.tanh X) C i0 j0) (X i0 j0) :=
+  conv_input_derivative_correct m B X C i0 j0 hi0 hnk
+/-- **weighted parameter derivative, filter entries** (at their position in the gradient vector) -/
+theorem conv2d_filter_gradient_correct (m : Conv ℝ) (B : ℕ) (X C : ℕ → ℕ → ℝ) (q0 : ℕ)
+    (hq0 : q0 < m.nf * m.fsize) (hfs : 0 < m.fsize) (hnk : ConvNoKink m B X) :
+    HasDerivAt (fun t => ∑ i ∈ Finset.range B, ∑ o ∈ Finset.range m.nOut, C i o *
+        ({ m with filt := fun q => if q = q0 then t else m.filt q } : Conv ℝ).evalB Real.tanh X i o)
+      (m.gradFilt B X (m.evalB Real.tanh X) C q0) (m.filt q0) ∧
+    (m.gradParams B X (m.evalB Real.tanh X) C).getD q0 0 = m.gradFilt B X (m.evalB Real.tanh X) C q0 ∧
+    m.params.getD q0 0 = m.filt q0 :=
+  ⟨conv_filter_derivative_correct m B X C q0 hq0 hfs hnk, conv_gradParams_filt_pos m B X _ C q0 hq0,
+   conv_params_filt_pos m q0 hq0⟩
+/-- **weighted parameter derivative, offsets** -/
+theorem conv2d_offset_gradient_correct (m : Conv ℝ) (B : ℕ) (X C : ℕ → ℕ → ℝ) (f0 : ℕ) (hf0 : f0 < m.nf)
+    (hnk : ConvNoKink m B X) :
+    HasDerivAt (fun t => ∑ i ∈ Finset.range B, ∑ o ∈ Finset.range m.nOut, C i o *
+        ({ m with off := fun f => if f = f0 then t else m.off f } : Conv ℝ).evalB Real.tanh X i o)
+      (m.gradOff B (m.evalB Real.tanh X) C f0) (m.off f0) ∧
+    (m.gradParams B X (m.evalB Real.tanh X) C).getD (m.nf * m.fsize + f0) 0 = m.gradOff B (m.evalB Real.tanh X) C f0 ∧
+    m.params.getD (m.nf * m.fsize + f0) 0 = m.off f0 :=
+  ⟨conv_offset_derivative_correct m B X C f0 hf0 hnk, conv_gradParams_off_pos m B X _ C f0 hf0,
+   conv_params_off_pos m f0 hf0⟩
+
+/-! ### `CMACMap` -/
+theorem cmac_batch_eq_single' (toNat : Rat → Nat) (m : CMAC Rat) (X : Nat → Nat → Rat) (i o : Nat) :
+    m.evalB toNat X i o = m.eval toNat (X i) o := cmac_batch_eq_single toNat m X i o
+/-- **weighted parameter derivative of the CMAC** (the tile indices do not depend on the parameters) -/
+theorem cmac_parameter_derivative_correct (toNat : ℝ → ℕ) (m : CMAC ℝ) (B : ℕ) (X C : ℕ → ℕ → ℝ) (q0 : ℕ)
+    (hq : q0 < m.params.length) :
+    HasDerivAt (fun t => ∑ i ∈ Finset.range B, ∑ o ∈ Finset.range m.nOut, C i o *
+        ({ m with params := m.params.set q0 t } : CMAC ℝ).evalB toNat X i o)
+      (m.gradParam toNat B X C q0) (m.params.getD q0 0) :=
+  cmac_param_derivative_correct toNat m B X C q0 hq
+
+/-- **CMAC tile hashing** (integer arithmetic): if every per-dimension tile number is below the number of
+tiles, every parameter position accessed by `eval` / `weightedParameterDerivative` lies inside the
+parameter vector … -/
+theorem cmac_access_in_range {α : Type} [Scalar α] (toNat : α → Nat) (m : CMAC α) (t : Nat) (x : Nat → α)
+    (hdig : ∀ dim, dim < m.nIn → toNat (((x dim - m.lower) - m.offset t) / m.tileWidth) < m.tiles)
+    (ht : t < m.tilings) (o : Nat) (ho : o < m.nOut) :
+    m.index toNat t x + o * m.perTiling < m.numberOfParameters :=
+  cmac_access_in_bounds toNat m t x hdig ht o ho
+/-- … and the position determines the output, the tiling and every tile number (no two different
+(output, tiling, tile) triples share a parameter) -/
+theorem cmac_access_determines_tile {α : Type} [Scalar α] (toNat : α → Nat) (m : CMAC α) (t1 t2 : Nat)
+    (x1 x2 : Nat → α)
+    (hdig1 : ∀ dim, dim < m.nIn → toNat (((x1 dim - m.lower) - m.offset t1) / m.tileWidth) < m.tiles)
+    (hdig2 : ∀ dim, dim < m.nIn → toNat (((x2 dim - m.lower) - m.offset t2) / m.tileWidth) < m.tiles)
+    (ht1 : t1 < m.tilings) (ht2 : t2 < m.tilings) (o1 o2 : Nat)
+    (h : m.index toNat t1 x1 + o1 * m.perTiling = m.index toNat t2 x2 + o2 * m.perTiling) :
+    o1 = o2 ∧ t1 = t2 ∧ ∀ dim, dim < m.nIn →
+      toNat (((x1 dim - m.lower) - m.offset t1) / m.tileWidth)
+        = toNat (((x2 dim - m.lower) - m.offset t2) / m.tileWidth) :=
+  cmac_access_injective toNat m t1 t2 x1 x2 hdig1 hdig2 ht1 ht2 o1 o2 h
+
 /-! ### non-vacuity -/
 def demo : Dense Rat := { nIn := 2, nOut := 2, W := fun k j => (k + 2 * j : Nat), hasB := true, b := fun k => (k : Nat), act := .rectifier }
 example : demo.params = [0, 2, 1, 3, 0, 1] := by decide
 example : demo.params.length = demo.numberOfParameters := params_length demo
 example : demo.preB (fun i j => (i + j : Nat)) 1 1 = 8 := by
   simp [demo, Dense.preB, sumR, sumL, List.range_succ]; norm_num
+
+/-- the chain theorems are not vacuous: a four-layer chain (tanh dense 2→3, frozen logistic neurons, linear
+dense 3→2, frozen softmax) fits and has no kinks for any batch (`Lemmas/ChainDeriv.lean`, `chainDemo`) -/
+example : Chain.WF chainDemo 2 := ⟨rfl, rfl, rfl, rfl, trivial⟩
+example (B : ℕ) (X C : ℕ → ℕ → ℝ) (hB : 0 < B) :
+    HasDerivAt (fun t => chainDemo.objective B 2 (fun i j => if i = 0 ∧ j = 1 then t else X i j) C)
+      ((chainDemo.backward Real.tanh Real.exp B X C).2 0 1) (X 0 1) :=
+  chain_input_derivative_correct chainDemo B 2 X C 0 1 hB (by norm_num) ⟨rfl, rfl, rfl, rfl, trivial⟩
+    (by simp [chainDemo, chainDemoPre, chainDemoMid, chainDemoPost, Chain.NoKink, Layer.NoKink])
+example : argmax 3 (fun k => if k = 1 then (5 : Rat) else 2) = 1 :=
+  classifier_argmax_unique 3 _ (by decide) 1 (by decide)
+    (by intro k hk; interval_cases k <;> norm_num) (by intro k hk; interval_cases k; norm_num)
+example : (Chain.setParams ([(Layer.dense demo, true), (Layer.neuron .tanh 2, false)] : Chain Rat) [1, 2, 3, 4, 5, 6]).params
+    = [1, 2, 3, 4, 5, 6] :=
+  chain_params_setParams _ _ (by simp [Chain.numberOfParameters, Layer.numberOfParameters, Dense.numberOfParameters, demo])
 
 end SharkVerif.C04
